@@ -209,7 +209,8 @@ def rule_w1(ctx) -> RuleResult:
                 if name.startswith("_") or K.lookup(name)[2] is not fn:
                     continue
                 summ = eng.analyse(fn, K)
-                own_stores = {f for (r, f) in summ.stores if r == "self" and f in eng.persisted_fields(K)}
+                # its own stores and those of the helper methods it hands the work to (not of the setters it assigns through)
+                own_stores = {f for (r, f) in _transitive_effects(eng, fn, K)[0] if r == "self" and f in eng.persisted_fields(K)}
                 if not own_stores:
                     continue
                 n_methods += 1
@@ -297,16 +298,22 @@ def rule_w2(ctx) -> RuleResult:
         if recv is None or a1 is None:
             continue
         routes_here = route_values(p, fn, a1, at=call)
-        if routes_here is None:
+        recv = expanded(recv, fn.node)
+        by_self = isinstance(recv, ast.Name) and recv.id == fn.self_name and fn.cls is not None
+        sites = []  # (label, where, classes, routes)
+        if routes_here is not None:
+            sites.append((f"{fn.qualname}:{call.lineno}", f"{fn.module.relpath}:{call.lineno}", list(p.subclasses(fn.cls)) if by_self else [], routes_here))
+        elif by_self:
+            # the route is a parameter of a helper: the obligation lives at every call of the helper, with the route it hands over
+            for other, c2, rs in _routes_from_callers(eng, fn, call):
+                if rs is None:
+                    res.instances.append(f"{other.qualname}:{c2.lineno} dynamic route through {fn.name}")
+                else:
+                    sites.append((f"{other.qualname}:{c2.lineno} (through {fn.name})", f"{other.module.relpath}:{c2.lineno}", list(p.subclasses(other.cls)), rs))
+        if not sites:
             res.instances.append(f"{fn.qualname}:{call.lineno} dynamic route {unparse(a1)}")
             continue
-        where = f"{fn.module.relpath}:{call.lineno}"
-        # receiver classes
-        recv = expanded(recv, fn.node)
-        classes = []
-        if isinstance(recv, ast.Name) and recv.id == fn.self_name and fn.cls is not None:
-            classes = [c for c in p.subclasses(fn.cls)]
-        for route in routes_here:  # one literal, or each element of the literal sequence a loop hands over
+        for label, where, classes, route in [(lb, wh, cl, r) for lb, wh, cl, rs in sites for r in rs]:
             ok = True
             if route in t.array_routes and not has_gateway_kw(p, call, "channel") and not has_gateway_kw(p, call, "values"):
                 for K in classes:
@@ -323,7 +330,7 @@ def rule_w2(ctx) -> RuleResult:
             elif route not in t.routes and route not in ("attributes", "index", "data"):
                 # falls to write_attributes: legitimate only as a spelling of 'attributes'
                 res.notes.append(f"{where}: route {route!r} is not a dispatcher route (falls through to write_attributes)")
-            res.inst(f"{fn.qualname}:{call.lineno} route={route!r}", ok=ok)
+            res.inst(f"{label} route={route!r}", ok=ok)
     # the array branch must evaluate the public getter before it reads the backing field: setters such as Curve.parts
     # null the backing field and rely on the getter to recompute it at write time
     wa = t.writer.methods["write_array_attribute"]
@@ -460,6 +467,34 @@ def _transitive_effects(eng, fn, K, _stack=()):
                 persists += [x for x in p2 if x not in persists]
     eng._memo[key] = (stores, persists)
     return eng._memo[key]
+
+
+def _routes_from_callers(eng, helper, gateway_call):
+    """[(caller, call, routes | None)] for a helper whose persistence call takes a route that depends on the helper's parameters
+    (directly, through a built name or a table): every call `self.<helper>(...)` / `super().<helper>(...)` in the class family,
+    with the constant route(s) the persistence call gets once the helper is specialised on the constants handed over there."""
+    p = eng.p
+    out = []
+    for other in p.all_functions():
+        if other.cls is None or other is helper or not (helper.cls in other.cls.mro or other.cls in helper.cls.mro):
+            continue
+        sn = other.self_name or "self"
+        for c in ast.walk(other.node):
+            if not (isinstance(c, ast.Call) and isinstance(c.func, ast.Attribute) and c.func.attr == helper.name):
+                continue
+            ch = chain(c.func)
+            if not ch or ch[0] not in (sn, "cls", "super()"):
+                continue
+            spec = eng._specialise(other, helper, c)
+            routes = None
+            if spec is not helper:
+                for g2 in ast.walk(spec.node):
+                    if isinstance(g2, ast.Call) and isinstance(g2.func, ast.Attribute) and g2.func.attr == "update_attribute" \
+                            and (g2.lineno, g2.col_offset) == (gateway_call.lineno, gateway_call.col_offset):
+                        r2 = gateway_args(p, g2)[1]
+                        routes = route_values(p, spec, r2, at=g2) if r2 is not None else None
+            out.append((other, c, routes))
+    return out
 
 
 # in-memory knobs whose setters call update_attribute although the format has no slot for them
